@@ -722,6 +722,9 @@ def oracle(op: str, a, rpy: str, rrs: str):
 
 
 # --- failing-input classes (narrow; matched against findings/C15.jsonl) ---------------------------------------
+# All nine classes below were genuine divergences of the code before the C15 repair series and are listed as `fixed`
+# in findings/C15.jsonl: fixed entries suppress nothing, so a divergence that falls in one of them again is a VIOLATION
+# (the class string in the replay file then says which old defect came back).
 
 _CPY_INT8 = re.compile(rb"^[ \t\n\x0b\x0c\r]*[+-]?(0[oO]_?)?[0-7](_?[0-7])*[ \t\n\x0b\x0c\r]*\Z")
 _CANON = re.compile(rb"^\+?[0-7]+\Z")
@@ -998,8 +1001,9 @@ def gen_bisect_cases(ctx):
     OFF = 2 ** 40
 
     def sid(i, w=20):
-        return (i + OFF).to_bytes(w, "big")
-    edges = [2 ** 30 - 2, 2 ** 30 - 1, 2 ** 30, 2 ** 30 + 1, 2 ** 31 - 2, 2 ** 31 - 1, 2 ** 31, 2 ** 31 + 1, 2 ** 32, 2 ** 33]
+        return (max(i + OFF, 0)).to_bytes(w, "big")
+    edges = [2 ** 30 - 2, 2 ** 30 - 1, 2 ** 30, 2 ** 30 + 1, 2 ** 31 - 2, 2 ** 31 - 1, 2 ** 31, 2 ** 31 + 1, 2 ** 32, 2 ** 33,
+             2 ** 62, 2 ** 63 - 2, 2 ** 63 - 1, 2 ** 63, 2 ** 63 + 1, 2 ** 64 - 1, 2 ** 64, 2 ** 64 + 1, 2 ** 100]
     for hi in edges:
         for lo in (0, 1, hi - 1, hi, hi // 2, 2 ** 30 - 1):
             if lo < 0:
@@ -1007,7 +1011,7 @@ def gen_bisect_cases(ctx):
             for target in (lo, hi, (lo + hi) // 2, hi - 1, hi + 1, 5):
                 cases.append([lo, hi, hx(sid(target)), "synth", [OFF, 20]])
                 tags.append("near-2^%d" % (hi.bit_length() - 1 if hi & (hi - 1) == 0 else hi.bit_length()))
-    for lo in (-2 ** 31 - 1, -2 ** 31, -2 ** 31 + 1, -2 ** 30 - 1, -2 ** 30, -2 ** 30 + 1):
+    for lo in (-2 ** 31 - 1, -2 ** 31, -2 ** 31 + 1, -2 ** 30 - 1, -2 ** 30, -2 ** 30 + 1, -2 ** 63 - 1, -2 ** 63, -2 ** 63 + 1, -2 ** 64):
         for hi in (lo, lo + 1, 0, 7, -1):
             if lo <= hi:
                 cases.append([lo, hi, hx(sid(rng.choice([lo, hi, (lo + hi) // 2]))), "synth", [OFF, 20]])
@@ -1360,7 +1364,8 @@ def run(ctx: core.Ctx):
     ctx.assumptions += [
         "CPython semantics of int(bytes, 8), bytes comparison, sorted(), posixpath.join, stat.S_ISDIR and Rust's "
         "from_str_radix, slice ordering, sort_by are modelled (not verified) and tied by the correspondence streams",
-        "Rust extension = debug profile build of the working tree (overflow checks on), 64-bit usize, as the installed artefact",
+        "Rust extension = debug profile build of the working tree (overflow checks on), 64-bit usize/isize, as the installed "
+        "artefact; sys.maxsize = isize::MAX (checked by the translator)",
         "the `unpack_name` callback of bisect_find_sha is a parameter; the harness instantiates it with three callbacks "
         "(strict table, Python list indexing, a synthetic table defined on every index)",
         "hash() of a block is Python's own in both implementations; children run with PYTHONHASHSEED=0",
